@@ -44,6 +44,11 @@ type (
 		Name string
 	}
 	CParam struct{ Name, Type string }
+	CAll   struct {
+		Var    string
+		Lo, Hi int64
+		Body   CExpr
+	}
 )
 
 type Clause struct {
@@ -75,6 +80,7 @@ type SpecFunc struct {
 	Pkg    string
 	// lemma parts
 	IsLemma  bool
+	Opaque   bool
 	Requires []*Clause
 	Ensures  []*Clause
 	Props    []string
@@ -175,7 +181,15 @@ func parseContractFile(path, pkgPath string) (*ContractFile, error) {
 				return nil, err
 			}
 			lastCl, cur = nil, nil
+			opaque := false
+			if strings.HasPrefix(rest, "opaque ") {
+				opaque = true
+				rest = strings.TrimSpace(rest[len("opaque "):])
+			}
 			sp, err := parseSpecHeader(rest, word == "lemma")
+			if sp != nil {
+				sp.Opaque = opaque
+			}
 			if err != nil {
 				return nil, fmt.Errorf("%s:%d: %v", path, ln+1, err)
 			}
@@ -398,7 +412,7 @@ func lexC(s string) ([]tok, error) {
 			out = append(out, tok{"int", strconv.Itoa(int(v))})
 			i = j + 1
 		default:
-			ops := []string{"<==>", "==>", "::", "<<", ">>", "<=", ">=", "==", "!=", "&&", "||", "&^"}
+			ops := []string{"<==>", "==>", "::", "..", "<<", ">>", "<=", ">=", "==", "!=", "&&", "||", "&^"}
 			matched := false
 			for _, op := range ops {
 				if strings.HasPrefix(s[i:], op) {
@@ -497,6 +511,34 @@ func (p *cparser) expr() (CExpr, error) {
 		}
 		return &CQuant{Forall: t.s == "forall", Vars: vars, Body: body}, nil
 	}
+	if t.kind == "id" && t.s == "all" {
+		p.next()
+		n := p.next()
+		if n.kind != "id" {
+			return nil, fmt.Errorf("all: expected variable")
+		}
+		if in := p.next(); in.s != "in" {
+			return nil, fmt.Errorf("all: expected 'in'")
+		}
+		lo := p.next()
+		if err := p.expect(".."); err != nil {
+			return nil, err
+		}
+		hi := p.next()
+		if lo.kind != "int" || hi.kind != "int" {
+			return nil, fmt.Errorf("all: bounds must be integer literals")
+		}
+		if err := p.expect("::"); err != nil {
+			return nil, err
+		}
+		body, err := p.expr()
+		if err != nil {
+			return nil, err
+		}
+		l, _ := strconv.ParseInt(lo.s, 0, 64)
+		h, _ := strconv.ParseInt(hi.s, 0, 64)
+		return &CAll{Var: n.s, Lo: l, Hi: h, Body: body}, nil
+	}
 	return p.iff()
 }
 
@@ -540,7 +582,7 @@ func (p *cparser) implies() (CExpr, error) {
 	if p.accept("==>") {
 		// right associative; allow a quantifier on the right
 		var y CExpr
-		if t := p.peek(); t.kind == "id" && (t.s == "forall" || t.s == "exists") {
+		if t := p.peek(); t.kind == "id" && (t.s == "forall" || t.s == "exists" || t.s == "all") {
 			y, err = p.expr()
 		} else {
 			y, err = p.implies()
